@@ -8,6 +8,11 @@ LEVEL = "model_checking"
 
 def nontrivial(chk, st, rid, evs):
     for e in evs:
+        if e["e"] == "ParamSet":
+            chk.nontrivial("ps%s-%s" % (st["flavour"], rid))
+            if e["outcome"] == "ok":
+                chk.sample({"accepted_set_ints": e["ints"]}, limit=2)
+            break
         if e["e"] == "Api" and e["outcome"] == "error":
             chk.nontrivial("api%s-%s" % (st["flavour"], rid))
             chk.sample({"kind": e["kind"], "arg": e["arg"], "outcome": e["outcome"], "what": e["what"]}, limit=8)
@@ -25,7 +30,10 @@ def run(chk):
     # the attempt table is finite and enumerated completely in both tiers; thorough adds the assertion-free build and more instances
     plan = [dict(flavour="asan-ubsan", exe="record_proto", scen="invalid", runs=(700, 700), opts={}),
             # random histories of the 14 public mutators with valid and invalid arguments: refused iff invalid, a refused call changes nothing
-            dict(flavour="asan-ubsan", exe="record_proto", scen="api", runs=(300, 8000), opts={})]
+            dict(flavour="asan-ubsan", exe="record_proto", scen="api", runs=(300, 8000), opts={}),
+            # whole parameter sets, several fields at once outside / at / inside their ranges and integer fields in every relation the check
+            # constrains: accepted iff PlaceAPI.ParamsValid; a rejected set is refused by a placement call before any work
+            dict(flavour="asan-ubsan", exe="record_proto", scen="paramsets", runs=(800, 20000), opts={})]
     if not chk.quick:
         plan.append(dict(flavour="rel", exe="record_proto", scen="invalid", runs=(700, 700), opts={}))
         plan.append(dict(flavour="dbg", exe="record_proto", scen="invalid", runs=(700, 700), opts={}))
@@ -35,7 +43,8 @@ def run(chk):
                        "its documented range (check() outcome, and a legalize call with it must be rejected before any callback and leave the circuit "
                        "unchanged); 11 vector setters x lengths n-1, n+1, 0; addNet/setNets with pins -1, n, n+7 and inconsistent lengths; the expected "
                        "outcome of every attempt is computed by TLC from the contract (PlaceAPI.tla); plus random histories of the 14 public mutators with valid and invalid "
-                       "arguments (lengths, pins, limits, weights, row heights), judged by the abstract data type of Circuit in PlaceAPI.tla")
+                       "arguments (lengths, pins, limits, weights, row heights), judged by the abstract data type of Circuit in PlaceAPI.tla; plus random whole parameter sets (several fields at once outside / at / inside, "
+                       "integer fields in every relation the check constrains) judged by PlaceAPI.ParamsValid and submitted to a placement entry point")
     chk.cov["exhaustive"] = False   # the attempt table is complete, the api histories are sampled
     return chk.finish()
 
